@@ -296,15 +296,18 @@ def create(
                 )
                 return
 
-            scope = id_of(_schema)
+            ref = _schema.get(u"$ref")
+            if ref is not None:
+                # everything next to ``$ref`` is ignored, its id included
+                scope = u""
+                validators = [(u"$ref", ref)]
+            else:
+                scope = id_of(_schema)
+                validators = _schema.items()
+
             if scope:
                 self.resolver.push_scope(scope)
             try:
-                ref = _schema.get(u"$ref")
-                if ref is not None:
-                    validators = [(u"$ref", ref)]
-                else:
-                    validators = _schema.items()
 
                 for k, v in validators:
                     validator = self.VALIDATORS.get(k)
